@@ -444,7 +444,7 @@ fn check_c06(case: &Case, base: &Path, r: &RunResult, serial: &[Seen]) -> Option
         }
     }
     if let Some(d) = diff_multisets(&pm, &sm, "parallel", "serial") {
-        let class = classify_c06_diff(case, &pm, &sm);
+        let class = classify_c06_diff(case, base, &pm, &sm);
         return Some(Verdict { class, summary: format!("parallel and serial walkers disagree: {d}") });
     }
     // independent listing, when no rule-based filtering is active
@@ -460,7 +460,7 @@ fn check_c06(case: &Case, base: &Path, r: &RunResult, serial: &[Seen]) -> Option
 
 /// Names the configuration class of a serial/parallel disagreement, so that a
 /// known finding covers only that class.
-fn classify_c06_diff(case: &Case, pm: &BTreeMap<Seen, usize>, sm: &BTreeMap<Seen, usize>) -> String {
+fn classify_c06_diff(case: &Case, base: &Path, pm: &BTreeMap<Seen, usize>, sm: &BTreeMap<Seen, usize>) -> String {
     // Entries the serial walker reports although the entry filter rejects
     // them, with a size limit configured.
     if let (Some(ch), Some(_)) = (case.cfg.filter_char, case.cfg.max_filesize) {
@@ -472,6 +472,37 @@ fn classify_c06_diff(case: &Case, pm: &BTreeMap<Seen, usize>, sm: &BTreeMap<Seen
         });
         if only_par.is_empty() && all_filtered_files {
             return "serial-ignores-filter-with-max-filesize".into();
+        }
+    }
+    // Entries the serial walker loses: the remaining siblings (and their
+    // subtrees) of a directory on another file system that a filter or an
+    // ignore rule rejected, with same_file_system on.
+    if case.cfg.same_file_system && case.cfg.follow_links {
+        let only_par: Vec<&Seen> = pm.keys().filter(|k| pm.get(*k) != sm.get(*k)).collect();
+        let only_ser: Vec<&Seen> = sm.keys().filter(|k| !pm.contains_key(*k)).collect();
+        let canon = |rel: &str| std::fs::canonicalize(base.join(rel)).ok();
+        for n in case.tree.nodes.iter().filter(|n| n.kind == NodeKind::XdevLink) {
+            let Some(xparent) = canon(&n.path[..n.path.rfind('/').unwrap_or(0)]) else { continue };
+            // every lost entry lives in (an alias of) the directory holding the
+            // cross-device link, or beneath one of its siblings
+            let all_siblings = only_par.iter().all(|k| {
+                let p = match k {
+                    Seen::Ok(p) => p,
+                    Seen::Err(_, p) => p,
+                };
+                let mut cur = p.as_str();
+                while let Some(i) = cur.rfind('/') {
+                    cur = &cur[..i];
+                    if canon(cur).as_ref() == Some(&xparent) {
+                        return true;
+                    }
+                }
+                false
+            });
+            let link_reported = pm.keys().any(|k| matches!(k, Seen::Ok(p) if p.ends_with(n.path.rsplit('/').next().unwrap()) && canon(&p[..p.rfind('/').unwrap_or(0)]).as_ref() == Some(&xparent)));
+            if only_ser.is_empty() && !only_par.is_empty() && all_siblings && !link_reported {
+                return "serial-loses-siblings-of-rejected-cross-device-dir".into();
+            }
         }
     }
     "serial-parallel-differ".into()
